@@ -25,6 +25,8 @@ type Violation struct {
 	Tags    []string
 	Inputs  map[string]string
 	Order   []string
+	FloatInputs []string // names of float64 bit-pattern inputs (domain B); used to concretise UF models natively
+	UFOps   int
 	Count   int
 	Known   string // matching known-finding line, if any
 	Replay  string
@@ -47,6 +49,7 @@ type PathRun struct {
 	inputs     []*Term
 	inputNames map[string]bool
 	kInputs    map[string]bool
+	floatInputs map[string]bool
 	covers     map[string]bool
 	tags       map[string]bool
 	bounds     map[string]int64
@@ -282,6 +285,11 @@ func (s *State) newViolation(kind, label, detail string) *Violation {
 		v.Tags = append(v.Tags, t)
 	}
 	sort.Strings(v.Tags)
+	for n := range s.run.floatInputs {
+		v.FloatInputs = append(v.FloatInputs, n)
+	}
+	sort.Strings(v.FloatInputs)
+	v.UFOps = s.run.ufOps
 	return v
 }
 
